@@ -45,6 +45,9 @@ impl BytesMut {
     pub fn extend_from_slice(&mut self, s: &[u8]) ensures final(self)@ == old(self)@ + s@ { self.v.extend_from_slice(s) }
     #[verifier::external_body]
     pub fn put_slice(&mut self, s: &[u8]) ensures final(self)@ == old(self)@ + s@ { self.v.extend_from_slice(s) }
+    // Extend<u8> for BytesMut with a Bytes argument (IntoIterator<Item = u8>): appends its bytes
+    #[verifier::external_body]
+    pub fn extend(&mut self, b: Bytes) ensures final(self)@ == old(self)@ + b@ { unimplemented!() }
     #[verifier::external_body]
     pub fn put_u8(&mut self, b: u8) ensures final(self)@ == old(self)@.push(b) { self.v.push(b) }
 }
